@@ -18,7 +18,7 @@ def _th(*audits: str) -> list[str]:
 
 # properties whose machinery is finished and reviewed (everything else is listed under not_applicable
 # in MANIFEST.json with the reason "in progress")
-READY = {"C01", "C02", "C03", "C04", "C05", "C06", "C07", "C08", "C09", "C10", "C11", "C13", "C14", "C15", "C16", "C17", "C18", "C19", "C20"}
+READY = {"C01", "C02", "C03", "C04", "C05", "C06", "C07", "C08", "C09", "C10", "C11", "C12", "C13", "C14", "C15", "C16", "C17", "C18", "C19", "C20"}
 
 
 def _reg(pid, modules, audits, families, note, partial="", assumptions=None, pre_build=None):
@@ -41,11 +41,11 @@ _LOOP = {
     "C01": (["Redress.Props.C01"], ["Redress/Audit/C01.lean"]),
     "C02": (["Redress.Props.C02"], ["Redress/Audit/C02.lean"]),
     "C03": (["Redress.Props.C03"], ["Redress/Audit/C03.lean"]),
-    "C04": (["Redress.Props.C04"], ["Redress/Audit/C04.lean"]),
+    "C04": (["Redress.Props.C04", "Redress.Props.C04NR"], ["Redress/Audit/C04.lean", "Redress/Audit/C04NR.lean"]),
     "C05": (["Redress.Props.C05", "Redress.Props.C05Sig"], ["Redress/Audit/C05.lean", "Redress/Audit/C05Sig.lean"]),
     "C08": (["Redress.Props.C08"], ["Redress/Audit/C08.lean"]),
     "C09": (["Redress.Props.C09"], ["Redress/Audit/C09.lean"]),
-    "C11": (["Redress.Props.C11"], ["Redress/Audit/C11.lean"]),
+    "C11": (["Redress.Props.C11", "Redress.Props.C11NR"], ["Redress/Audit/C11.lean", "Redress/Audit/C11NR.lean"]),
     "C12": (["Redress.Props.C12"], ["Redress/Audit/C12.lean"]),
     "C13": (["Redress.Props.C13"], ["Redress/Audit/C13.lean"]),
     "C14": (["Redress.Props.C14"], ["Redress/Audit/C14.lean"]),
@@ -53,7 +53,15 @@ _LOOP = {
     "C16": (["Redress.Props.C16"], ["Redress/Audit/C16.lean"]),
 }
 _LOOP_PARTIAL = {
-    "C04": "the traceback conjunct cannot be expressed in the model; it is checked on the implementation by the harness (tb_ok). The theorems cover entries with a retry loop; Policy.call without a retry component makes one attempt and re-raises (model Policy.callWithoutRetry), tied by the correspondence only",
+    "C04": "the traceback conjunct cannot be expressed in the model; it is checked on the implementation by the harness (tb_ok). Entries with a retry loop: Props/C04; a Policy without a retry component (single attempt): Props/C04NR",
+    "C12": "call()/execute() agreement is proved for Retry (call_execute_agree) under: no attempt hooks, the abort "
+           "predicate does not raise, callbacks other than the operation do not raise AbortRetryError themselves, the "
+           "operation does not raise the library's own RuntimeError/CircuitOpenError objects; and for a Policy WITH a "
+           "retry component (pcall_pexecute_agree) under the further hypotheses that exclude the known findings F11/F12 "
+           "and a classifier that is not a function of the exception. The retry-less Policy pair is not proved (F13 "
+           "lives there). Sync/async and Retry/Policy/RetryPolicy/@retry/context agreement is by construction of the "
+           "model (one model function per entry; async_irrelevant) and carried by the correspondence + the entry-point "
+           "twins on the implementation",
     "C02": "wall-clock independence is by construction of the model (it has no wall-clock input); carried by the "
            "correspondence, whose non-monotonic clock shim jumps by hours at every read",
 }
